@@ -11,22 +11,22 @@ import (
 
 func init() {
 	register(&Property{
-		ID:  "C05",
-		Run: runC05,
+		ID:          "C05",
+		Run:         runC05,
 		Explanation: "Share under saturation (necessary structure only): P1 the first-phase allotment tops every priority up by exactly strategic[p]-actual[p], rejects only when actual[p] > strategic[p] (strictly) and answers true exactly when what it wrote sums to the vacant handlers; P2 `strategic` is the divider applied to all registered priorities (sorted high to low) and HandlersQuantity into an empty map - v2: validated by safeDivide in the constructor and never written again; v1: re-computed after every change of the priority set before control returns to the scheduler; D2 (shared with C15) every list handed to the divider is sorted and duplicate-free. Paper lemma: if actual <= strategic for all p and Σstrategic = H the top-up always succeeds, so under saturation the base path is never taken.",
-		NotDecided: []string{"the lemma's premises that depend on run-time arithmetic (Σstrategic = H for custom dividers in v1; the allotment being consumed while inputs are full)", "'exactly its share when no release is outstanding' (liveness)"},
+		NotDecided:  []string{"the lemma's premises that depend on run-time arithmetic (Σstrategic = H for custom dividers in v1; the allotment being consumed while inputs are full)", "'exactly its share when no release is outstanding' (liveness)"},
 	})
 	register(&Property{
-		ID:  "C06",
-		Run: runC06,
+		ID:          "C06",
+		Run:         runC06,
 		Explanation: "Progress (necessary structure only; liveness of a numeric allotment is not statically decidable): N1 every receive from an input in the scheduler sits in a select with a default clause, or in one with a ticker clause whose body leaves the loop once a flag that the clause itself sets is true (bounded ticks) - an empty open input never blocks the round; N2 blocking receives on the release channel occur only on the proceed==false edge of the round-start calculation or inside the wait loop guarded by 'some actual non-zero'; N3 a round is wait-for-allotment -> spend -> re-divide the remainder measured before anything resets the map -> spend again when that division filled every candidate (the second phase gives a lone active priority all handlers); N4 (= C15/D8) the v2 constructor rejects a zero share for any registered priority.",
-		NotDecided: []string{"eventual delivery itself", "that the round-start wait is reached only with something in flight (needs Σstrategic = H)"},
+		NotDecided:  []string{"eventual delivery itself", "that the round-start wait is reached only with something in flight (needs Σstrategic = H)"},
 	})
 	register(&Property{
-		ID:  "C17",
-		Run: runC17,
+		ID:          "C17",
+		Run:         runC17,
 		Explanation: "v1 AddInput/RemoveInput (structure): R1 both command channels are made unbuffered, so the API call returns only after the scheduler received the command; R2 the receiving clause applies the command (a call that updates the input table with the command's own fields) before the clause is left; R3 removal deletes the table entry and every input receive loads the table and looks the channel up in the same basic block as its select (nothing cached across iterations), so a removed channel is never read again; R4 (= B11) in-flight counters of a removed priority stay until they are zero; R5 (= X1/D2/P2) addition replaces the channel and resets Drained, appends the key only if new, re-sorts the list and re-divides the shares before returning to the round.",
-		NotDecided: []string{"nothing structural; capacity / exactly-once / termination across changes follow from the C01/C02/C07 rules, which do not depend on the priority set"},
+		NotDecided:  []string{"nothing structural; capacity / exactly-once / termination across changes follow from the C01/C02/C07 rules, which do not depend on the priority set"},
 	})
 }
 
@@ -441,8 +441,30 @@ func checkN2(c *Ctx, pr *prioRoles) {
 				c.R.Pass("N2", key, rs.Pos(p), "inside the wait loop guarded by 'something is in flight'")
 				continue
 			}
-			// (a) every call site of fn is on the proceed==false edge of the round-start calculation
-			sites := p.CallSites(fn)
+			// (a) the receive itself, or every call site of its function, is on the proceed==false edge
+			// of the round-start calculation
+			var guarded []ssa.Instruction
+			selfGuarded := false
+			for _, e := range InstrDomEdges(rs.In) {
+				if p.edgeIsCallResult(e, reachesVac, false) {
+					selfGuarded = true
+				}
+				iff := e.From.Instrs[len(e.From.Instrs)-1].(*ssa.If)
+				base, neg := condOf(iff.Cond)
+				if ex, isEx := base.(*ssa.Extract); isEx && ex.Index == 0 {
+					if call, isCall := ex.Tuple.(*ssa.Call); isCall && p.Callee(call) != nil && reachesVac(p.Callee(call)) && (e.Succ == 0) == neg {
+						selfGuarded = true
+					}
+				}
+			}
+			if selfGuarded {
+				c.R.Pass("N2", key, rs.Pos(p), "only when the round-start calculation could not proceed")
+				continue
+			}
+			for _, cs := range p.CallSites(fn) {
+				guarded = append(guarded, cs)
+			}
+			sites := guarded
 			okA := len(sites) > 0
 			var bad []string
 			for _, cs := range sites {
@@ -602,7 +624,8 @@ func checkN3(c *Ctx, pr *prioRoles) {
 				continue
 			}
 			cal := p.Callee(call)
-			if cal != nil && p.IsProduct(cal) && p.mayWriteMapField(cal, "tactic") || (cal == pr.safeDivideFn) {
+			_, _, isDiv := pr.asDivision(call)
+			if cal != nil && p.IsProduct(cal) && p.mayWriteMapField(cal, "tactic") || isDiv {
 				if !instrDominates(sumCall, call) {
 					bad = append(bad, "the tactic map may be changed at "+p.InstrPos(call)+" before the remainder is measured at "+p.InstrPos(sumCall)+": the unspent handlers are lost and the second phase has nothing to hand out")
 				}
@@ -614,8 +637,10 @@ func checkN3(c *Ctx, pr *prioRoles) {
 	var divs []*ssa.Call
 	for _, b := range rFn.Blocks {
 		for _, in := range b.Instrs {
-			if call, ok := in.(*ssa.Call); ok && p.Callee(call) == pr.safeDivideFn {
-				divs = append(divs, call)
+			if call, ok := in.(*ssa.Call); ok {
+				if _, _, isDiv := pr.asDivision(call); isDiv {
+					divs = append(divs, call)
+				}
 			}
 		}
 	}
@@ -629,16 +654,19 @@ func checkN3(c *Ctx, pr *prioRoles) {
 		if last {
 			continue
 		}
-		_, path, okp := deepStrip(p.Sym(call.Call.Args[2])).FieldPath()
+		dividend, _, _ := pr.asDivision(call)
+		_, path, okp := deepStrip(p.Sym(dividend)).FieldPath()
 		if !(okp && strings.HasSuffix(strings.Join(path, "."), "HandlersQuantity")) {
-			bad = append(bad, "the division at "+p.InstrPos(call)+" that decides which priorities may receive the remainder divides "+p.Sym(call.Call.Args[2]).String()+" instead of HandlersQuantity: a priority that already holds that much is dropped from the re-division and a lone active priority is not granted all handlers")
+			bad = append(bad, "the division at "+p.InstrPos(call)+" that decides which priorities may receive the remainder divides "+p.Sym(dividend).String()+" instead of HandlersQuantity: a priority that already holds that much is dropped from the re-division and a lone active priority is not granted all handlers")
 		}
 	}
 	// the measured remainder is the dividend of the last division in rFn
 	usedAsDividend := false
 	for _, ref := range *sumCall.Referrers() {
-		if call, ok := ref.(*ssa.Call); ok && p.Callee(call) == pr.safeDivideFn && call.Call.Args[2] == ssa.Value(sumCall) {
-			usedAsDividend = true
+		if call, ok := ref.(*ssa.Call); ok {
+			if dividend, _, isDiv := pr.asDivision(call); isDiv && dividend == ssa.Value(sumCall) {
+				usedAsDividend = true
+			}
 		}
 	}
 	if !usedAsDividend {
@@ -914,16 +942,8 @@ func checkN6(c *Ctx, pr *prioRoles) {
 // handler is vacant (otherwise it hands on the answer of the base allotment).
 func checkN2b(c *Ctx, pr *prioRoles) {
 	p := pr.p
-	for _, cs := range p.CallSites(pr.vacantsFn) {
-		fn := cs.Parent()
-		vac := ssa.Value(cs.Value())
-		if cs.Value() != nil && cs.Value().Type().String() != "uint" {
-			for _, ref := range *cs.Value().Referrers() {
-				if ex, ok := ref.(*ssa.Extract); ok && ex.Index == 0 {
-					vac = ex
-				}
-			}
-		}
+	for _, vac := range pr.vacantsSites() {
+		fn := vac.(ssa.Instruction).Parent()
 		n := 0
 		for _, b := range fn.Blocks {
 			ret, ok := b.Instrs[len(b.Instrs)-1].(*ssa.Return)
@@ -968,6 +988,11 @@ func checkN78(c *Ctx, pr *prioRoles) {
 				continue
 			}
 			if _, isSlice := cal.Params[1].Type().Underlying().(*types.Slice); !isSlice {
+				// the shared for-all helper (list, distribution) applied to the tactic map
+				if over, isFA := p.forAllShape(cal); isFA && len(call.Call.Args) == 2 && p.isFieldLoad(call.Call.Args[1], "tactic") {
+					seen[cal] = true
+					c.R.Check(over == "slice", "N7", p.FnKey(fn)+"#filled:"+shortFn(p, cal), p.InstrPos(call), "for-all listed priorities: tactic != 0 (shared helper over the list)", "the allotment-filled predicate ranges over the entries of the map, not over the listed priorities: a priority without an entry is not seen")
+				}
 				continue
 			}
 			seen[cal] = true
